@@ -128,6 +128,9 @@ theorem protoGo_append_left : ∀ (xs ys : List Rec) (c : Option Nat), protoGo c
 theorem committed_of_proto (rs : List Rec) (h : ProtoOk rs = true) : committed rs = .ok (specTxs rs) :=
   commitGo_of_proto rs none [] [] h
 
+theorem readAll_of_eof' {cfg : Cfg} {t : Bytes} (h : nextRecord cfg t = .eof) : (readAll cfg t).1 = [] := by
+  rw [readAll_unfold, h]
+
 /-! ### the writer -/
 
 /-- the repaired configuration: tolerant reader, tail cut before the first append, oversize records refused,
@@ -228,6 +231,20 @@ theorem appendAll_after_tail {cfg : Cfg} (hf : Fixed cfg) {pre : Bytes} {rs : Li
       rw [hfile]; exact (hp.append hpt).append (IsFrames.single hle hdec)
     have := appendAll_checked hf ns h1' h' _ (fun q hq => hw q (by simp [hq])) htc' hfr' ha
     simpa using this.1
+
+/-- **no stale bytes, no resurrection**: a handle opened on ANY file `f` (damage anywhere, valid frames of discarded
+    transactions possibly behind it); after at least one acknowledged append the file is exactly the frames of
+    the records the reader accepted from `f` followed by the frames of the new records -/
+theorem appendAll_any_file {cfg : Cfg} (hf : Fixed cfg) (f : Bytes) (r : Rec) (ns : List Rec)
+    (hw : ∀ q ∈ r :: ns, q.wf = true) (h' : Handle) (ha : appendAll cfg (walOpen f) (r :: ns) = .ok h') :
+    IsFrames cfg h'.file ((readAll cfg f).1 ++ (r :: ns)) := by
+  obtain ⟨tail, htail⟩ := readAll_tolerant hf.over hf.undec f.length f (Nat.le_refl _)
+  obtain ⟨pre, hpre, hdec⟩ := readAll_decompose cfg f.length f (Nat.le_refl _)
+  obtain ⟨e, hn⟩ := hdec tail htail
+  subst e
+  have := appendAll_after_tail hf hpre tail r ns hw h' ha
+  rw [readAll_of_eof' hn] at this
+  simpa using this
 
 /-- a log written from scratch through one handle is exactly the frames of its records -/
 theorem appendAll_fresh {cfg : Cfg} (hf : Fixed cfg) (rs : List Rec) (hw : ∀ q ∈ rs, q.wf = true) (h' : Handle)
